@@ -260,6 +260,9 @@ class Stubs:
         self.eig_calls = []
         self.rng_calls = 0
         self.rng_log = []
+        self.rng_fv = {}
+        self.rng_os = 0
+        self.rng_streams = {}
         self.uf_count = 0
 
     def eig(self, M):
@@ -280,19 +283,29 @@ class Stubs:
         CTX.events.append(('stub', f'inv{n}x{n} uninterpreted'))
         return out
 
-    def random(self, shape, lo, hi, tag):
-        """fresh symbolic values in [lo, hi)"""
+    def random(self, shape, lo, hi, tag, stream=None):
+        """symbolic draws in [lo, hi).  RNG contract: the k-th draw of a stream is the symbol rng_<stream><tag>_<k>; the
+        global stream restarts at np.random.seed() (same seed => same symbols), a Generator built without a seed is a new
+        stream every time (OS entropy: nothing relates two of them)."""
         shape = () if shape is None else ((shape,) if isinstance(shape, (int, _np.integer)) else tuple(shape))
         out = _np.empty(shape, dtype=object)
         for idx in _np.ndindex(*shape):
-            self.rng_calls += 1
-            v = z3.Real(f"rng_{tag}_{self.rng_calls}")
-            CTX.inputs[str(v)] = v
-            if lo is not None:
-                CTX.domain += [v >= lo, v < hi]
-                fv = core.SAMPLE_RNG.uniform(lo, hi, core.K_SAMPLES)
+            if stream is None:
+                self.rng_calls += 1
+                name = f"rng_{tag}_{self.rng_calls}"
             else:
-                fv = core.SAMPLE_RNG.standard_normal(core.K_SAMPLES)
+                self.rng_streams[stream] = self.rng_streams.get(stream, 0) + 1
+                name = f"rng_{stream}_{tag}_{self.rng_streams[stream]}"
+            v = z3.Real(name)
+            fv = self.rng_fv.get(name)
+            if fv is None:
+                CTX.inputs[str(v)] = v
+                if lo is not None:
+                    CTX.domain += [v >= lo, v < hi]
+                    fv = core.SAMPLE_RNG.uniform(lo, hi, core.K_SAMPLES)
+                else:
+                    fv = core.SAMPLE_RNG.standard_normal(core.K_SAMPLES)
+                self.rng_fv[name] = fv
             out[idx] = SR(v, None, None, fv)
         self.rng_log.append((tag, shape))
         return out if shape else out[()]
@@ -302,33 +315,39 @@ STUBS = Stubs()
 
 
 class Random:
+    def __init__(self, stream=None):
+        self.stream = stream
+
     def random(self, size=None):
-        return STUBS.random(size, 0, 1, 'u')
+        return STUBS.random(size, 0, 1, 'u', self.stream)
 
     def random_sample(self, size=None):
-        return STUBS.random(size, 0, 1, 'u')
+        return STUBS.random(size, 0, 1, 'u', self.stream)
 
     def rand(self, *shape):
-        return STUBS.random(shape or None, 0, 1, 'u')
+        return STUBS.random(shape or None, 0, 1, 'u', self.stream)
 
     def randn(self, *shape):
-        return STUBS.random(shape or None, None, None, 'n')
+        return STUBS.random(shape or None, None, None, 'n', self.stream)
 
     def standard_normal(self, size=None):
-        return STUBS.random(size, None, None, 'n')
+        return STUBS.random(size, None, None, 'n', self.stream)
 
     def uniform(self, low=0.0, high=1.0, size=None):
-        u = STUBS.random(size, 0, 1, 'u')
+        u = STUBS.random(size, 0, 1, 'u', self.stream)
         return low + (high - low) * u
 
     def default_rng(self, seed=None):
+        if seed is None:
+            STUBS.rng_os += 1
+            return Random(f'os{STUBS.rng_os}')
         return self
 
     def seed(self, s=None):
         STUBS.rng_calls = 0
 
     def normal(self, loc=0.0, scale=1.0, size=None):
-        return loc + scale * STUBS.random(size, None, None, 'n')
+        return loc + scale * STUBS.random(size, None, None, 'n', self.stream)
 
     def randint(self, *a, **k):
         raise SymnpUnsupported("np.random.randint (integer draws index arrays)")
